@@ -510,3 +510,19 @@ package tubes
 //@   atomic
 //@   ensures called(common.DeadlineChan.Close) ==> pkt.flags.FIN && err == nil
 //@   ensures !pkt.flags.FIN ==> !called(common.DeadlineChan.Close)
+
+// (C08 / C09) opening handshake of a reliable tube, per initiate frame: a tube that was only created becomes initiated
+// exactly here (receive window expecting frame 1, the sender told that its initiate frame 0 arrived); in every other
+// state the state is left alone; a REQ is answered - unless the tube is closed - by ONE initiate frame that is a RESP
+// (not a REQ), reliable, acknowledging, and carries this tube's own id and type.
+//@ func (r *Reliable) receiveInitiatePkt(pkt *initiateFrame) (err error)
+//@   property C08 C09
+//@   atomic
+//@   after tubes.initiateFrame.toBytes let respID = argof(tubes.initiateFrame.toBytes, p).tubeID
+//@   after tubes.initiateFrame.toBytes let respType = argof(tubes.initiateFrame.toBytes, p).tubeType
+//@   after tubes.initiateFrame.toBytes let respFlagsOK = argof(tubes.initiateFrame.toBytes, p).flags.RESP && !argof(tubes.initiateFrame.toBytes, p).flags.REQ && argof(tubes.initiateFrame.toBytes, p).flags.REL && argof(tubes.initiateFrame.toBytes, p).flags.ACK && !argof(tubes.initiateFrame.toBytes, p).flags.FIN
+//@   ensures old(r.tubeState) == tubes.created && err == nil ==> r.tubeState == tubes.initiated && r.recvWindow.ackNo == 1 && callcount(tubes.sender.recvAck) == 1 && argof(tubes.sender.recvAck, ackNo) == 1
+//@   ensures old(r.tubeState) == tubes.created && err != nil ==> r.tubeState == tubes.closed
+//@   ensures old(r.tubeState) != tubes.created ==> r.tubeState == old(r.tubeState) && err == nil && !called(tubes.sender.recvAck)
+//@   ensures called(tubes.initiateFrame.toBytes) <==> (pkt.flags.REQ && r.tubeState != tubes.closed)
+//@   ensures called(tubes.initiateFrame.toBytes) ==> callcount(tubes.initiateFrame.toBytes) == 1 && respID == r.id && respType == r.tType && respFlagsOK
